@@ -14,3 +14,24 @@ package js_printer
 //@   opt frame-only
 //@   opt frame-forbid js_ast_
 //@   modifies nothing
+
+// ----------------------------------------------------------------------------------------------
+// C01 / C16: string and template contents are printed from UTF-16 code units; the look-ahead reads
+// (the digit after NUL, "</script", "${", surrogate pairs) stay inside the text, and the loop makes progress.
+// Assumed (object invariant of the printer's line bookkeeping, not verified here): the current line length is
+// between 0 and the number of bytes printed so far.
+//@ func (*printer).currentLineLength
+//@   trusted
+//@   modifies printer.oldLineStart, printer.oldLineEnd
+//@   ensures 0 <= result && result <= len(p.js)
+
+//@ func (*printer).printUnquotedUTF16
+//@   arith int
+//@   safety
+//@   prop C01 C16
+//@   requires p != nil
+//@   requires p.options.LineLimit <= 281474976710656
+//@   loop 0 invariant 0 <= i && i <= n && n == len(text) && len(temp) == 4
+//@   loop 0 invariant wrapLongLines ==> p.options.LineLimit > 0 && -i - p.options.LineLimit <= startLineLength && startLineLength <= p.options.LineLimit
+//@   loop 0 decreases n - i
+//@   loop 1 invariant 0 <= j && j <= 6 && 1 <= i && i + 6 <= len(text) && n == len(text) && i <= n && len(temp) == 4
